@@ -923,6 +923,9 @@ func (sc *scenario) judge() {
 			if def.mutation {
 				sc.violate("mutation-shared", "a mutation operation was answered from another request's result (inbound layer)", map[string]string{"layer": "inbound"}, witness(p, nil))
 			}
+			if def.kind != "" {
+				sc.violate("shared-non-query", "an operation whose type is not query ("+def.kind+") was answered from another request's result (inbound layer)", map[string]string{"layer": "inbound", "operation_type": def.kind}, witness(p, nil))
+			}
 			// no mutation of the shared buffer after delivery
 			for _, d := range p.deliveries {
 				res.Count("follower_buffers_rehashed", 1)
@@ -941,6 +944,16 @@ func (sc *scenario) judge() {
 		// upstream call accounting per fetch of the participant's plan
 		for i, f := range def.fetches {
 			n := own[p.id][uks[i]]
+			if f.kind != "" {
+				// a fetch that is not a query: every live request makes its own upstream call
+				if !p.cancelIssued.Load() && p.err == nil {
+					res.Count("non_query_fetches_checked", 1)
+					if n == 0 {
+						sc.violate("shared-non-query", "a "+f.kind+" fetch of a live participant never reached the upstream (answered from another request's call)", map[string]string{"layer": "upstream-call", "operation_type": f.kind}, witness(p, nil))
+					}
+				}
+				continue
+			}
 			if f.mutation {
 				if !p.cancelIssued.Load() && p.err == nil {
 					res.Count("mutation_fetches_checked", 1)
